@@ -3,7 +3,7 @@
 Oracles (DESIGN.md section 6, C03)
   (a) solo    - the rows of each (environment, learner, evaluator) triple in the multi-triple Result, and the parameter rows
                 of its three components, equal those of a one-triple experiment built *freshly* from the same descriptor
-                (fresh twin learner, that environment alone), run in-process.
+                (fresh twin learner, that environment alone), run in-process inside a pristine forked process.
   (b) context - deleting / permuting the other triples leaves a triple's rows unchanged (rows are matched through the
                 component indices of the descriptor, never through ids; the id -> component mapping of each Result is
                 cross-checked through the parameter rows in (a)).
@@ -56,17 +56,19 @@ def param_row(snap, table, id_):
     return None if row is None else G.present(row, (ID_COLS[table],))
 
 def solo_reference(desc, index_triple):
-    """one-triple in-process run of fresh twins; 'hit' = number of injected faults that fired during it (counted through the
-    components' own side channel, NOT through coba's log, which is under test)"""
-    del comps.FIRED[:]
-    o = G.run_built(G.build(G.solo_desc(desc, index_triple)))
-    fired = sum(MARK in m for m in comps.FIRED)
-    del comps.FIRED[:]
-    if o.error is not None: raise o.error
-    s = G.snapshot(o.result)
+    """one-triple in-process run of fresh twins inside a PRISTINE forked process (expgen.run_fresh), so the reference cannot be
+    coloured by what the harness process evaluated before; 'hit' = number of injected faults that fired during it (counted
+    through the components' own side channel, NOT through coba's log, which is under test)"""
+    f = G.run_fresh(G.solo_desc(desc, index_triple))
+    require(f["error"] is None, "one-triple reference run raised: " + str(f["error"]))
+    s = f["snapshot"]
     return {"rows": G.triple_rows(s, (0, 0, 0)),
             "params": {t: param_row(s, t, 0) for t in ID_COLS},
-            "hit": fired, "log": o.log}
+            "hit": sum(MARK in m for m in f["fired"]), "log": f["log"]}
+
+def no_failures(log, what, allowed=None):
+    bad = [l for l in G.unexpected_failures(log) if allowed is None or allowed not in l]
+    require(not bad, f"{what}: an evaluation that should succeed raised", log=[l[-300:] for l in bad[:2]])
 
 def check_against_solo(desc, built, snap, what):
     """every triple of `built` (run -> snap) equals its solo reference; returns the per-triple references"""
@@ -99,6 +101,7 @@ def run_solo(case):
     if o.error is not None: raise o.error
     snap = G.snapshot(o.result)
     what = f"{ex.get('mode', 'inproc')} run"
+    no_failures(o.log, what)
     check_against_solo(desc, built, snap, what)
     pristine_check(desc, built, what)
     # (b) delete / permute the other triples
@@ -134,6 +137,7 @@ def run_faults(case):
     what = f"{ex.get('mode', 'inproc')} run with {fault['kind']} fault"
     require(o.error is None, f"{what}: run() itself raised {type(o.error).__name__}: {o.error}")
     snap = G.snapshot(o.result)
+    no_failures(o.log, what, allowed=MARK)
     refs = check_against_solo(desc, built, snap, what)
     failing = [k for k, r in enumerate(refs) if r["hit"] and fault["kind"] not in ("lrn_params", "env_params")]
     for k in failing:
